@@ -1,5 +1,89 @@
+import Agd.Model.Access
 import Agd.Driver.Util
-/-! Line-protocol driver for the C10 model (stub: not built yet). -/
+/-! Line-protocol driver for the C10 model. -/
 namespace Agd.Driver.C10
-def main : IO Unit := Agd.Driver.loop (fun (s : Unit) _ => (s, "bad-op")) ()
+open Agd.Access Agd.Driver
+
+structure PCfg where
+  allowedNets : List Prefix := []
+  blockedNets : List Prefix := []
+  allowedASN : List Nat := []
+  blockedASN : List Nat := []
+  rules : List Rule := []
+
+def PCfg.acc (p : PCfg) : ProfAcc :=
+  { allowedNets := p.allowedNets, blockedNets := p.blockedNets, allowedASN := p.allowedASN,
+    blockedASN := p.blockedASN, eng := ruleEngine p.rules }
+
+structure S where
+  gnets : List Prefix := []
+  grules : List Rule := []
+  profs : List (Nat × PCfg) := []
+
+def S.global (s : S) : Global := { nets := s.gnets, eng := ruleEngine s.grules }
+
+def S.prof (s : S) (k : Nat) : PCfg := ((s.profs.find? (fun e => e.1 == k)).map (·.2)).getD {}
+
+def S.setProf (s : S) (k : Nat) (p : PCfg) : S :=
+  { s with profs := (k, p) :: s.profs.filter (fun e => e.1 != k) }
+
+def parseRule (kind allow imp tsel t dom : String) : Rule :=
+  { kind := if kind == "h" then .host else if kind == "n" then .net else .any,
+    dom := if dom == "-" then "" else dom,
+    allow := bool! allow, important := bool! imp,
+    tsel := if tsel == "only" then .only (nat! t) else if tsel == "except" then .except (nat! t) else .all }
+
+def parseASN (s : String) : Option Nat := if s == "-" then none else some (nat! s)
+
+def parseDev (s : S) (d : String) : DevRes :=
+  if d == "nil" then .none
+  else if d == "empty" then .ok none
+  else if d == "auth" then .authFail
+  else if d == "unk" then .unknownDedicated
+  else if d == "err" then .error
+  else match d.splitOn ":" with
+    | ["ok", k] => .ok (some (s.prof (nat! k)).acc)
+    | _ => .none
+
+def showEff : List Effect → String
+  | [] => "-"
+  | [.formerr] => "F"
+  | [.next] => "N"
+  | _ => "?"
+
+def step (s : S) : List String → S × String
+  | ["reset"] => ({}, "ok")
+  | ["gnet", is4, val, bits] =>
+    ({ s with gnets := s.gnets ++ [{ is4 := bool! is4, val := nat! val, bits := nat! bits }] }, "ok")
+  | ["grule", kind, allow, imp, tsel, t, dom] =>
+    ({ s with grules := s.grules ++ [parseRule kind allow imp tsel t dom] }, "ok")
+  | ["pnew", k] => (s.setProf (nat! k) {}, "ok")
+  | ["pan", k, is4, val, bits] =>
+    let p := s.prof (nat! k)
+    (s.setProf (nat! k) { p with allowedNets := p.allowedNets ++ [{ is4 := bool! is4, val := nat! val, bits := nat! bits }] }, "ok")
+  | ["pbn", k, is4, val, bits] =>
+    let p := s.prof (nat! k)
+    (s.setProf (nat! k) { p with blockedNets := p.blockedNets ++ [{ is4 := bool! is4, val := nat! val, bits := nat! bits }] }, "ok")
+  | ["paa", k, asn] =>
+    let p := s.prof (nat! k)
+    (s.setProf (nat! k) { p with allowedASN := p.allowedASN ++ [nat! asn] }, "ok")
+  | ["pba", k, asn] =>
+    let p := s.prof (nat! k)
+    (s.setProf (nat! k) { p with blockedASN := p.blockedASN ++ [nat! asn] }, "ok")
+  | ["prule", k, kind, allow, imp, tsel, t, dom] =>
+    let p := s.prof (nat! k)
+    (s.setProf (nat! k) { p with rules := p.rules ++ [parseRule kind allow imp tsel t dom] }, "ok")
+  | ["req", is4, val, port, qname, qtype, asn, ecs, dev] =>
+    let o := wrap s.global { addr := { is4 := bool! is4, val := nat! val }, port := nat! port, qname := qname,
+                             qtype := nat! qtype, asn := parseASN asn, ecsBad := bool! ecs, dev := parseDev s dev }
+    (s, o.why ++ " " ++ showEff o.effects ++ " " ++ showB o.err)
+  | ["gip", is4, val] => (s, showB (s.global.isBlockedIP { is4 := bool! is4, val := nat! val }))
+  | ["ghost", host, qt] => (s, showB (s.global.isBlockedHost (if host == "-" then "" else host) (nat! qt)))
+  | ["pblk", k, is4, val, asn, qname, qt] =>
+    (s, showB ((s.prof (nat! k)).acc.isBlocked qname (nat! qt) { is4 := bool! is4, val := nat! val } (parseASN asn)))
+  | ["norm", x] => (s, "[" ++ normDomain x ++ "] [" ++ normQueryDomain x ++ "]")
+  | _ => (s, "bad-op")
+
+def main : IO Unit := loop step {}
+
 end Agd.Driver.C10
